@@ -55,4 +55,11 @@ class RepresentationBaseType(DashElement):
         await asyncio.gather(*futures)
 
     def children(self) -> list[DashElement]:
-        return self.event_streams
+        rv: list[DashElement] = list(self.event_streams)
+        if (
+                self.segmentTemplate is not None and
+                self.segmentTemplate.parent is self):
+            # (a Representation without a SegmentTemplate uses the one of
+            # its AdaptationSet, which reports it)
+            rv.append(self.segmentTemplate)
+        return rv
